@@ -33,7 +33,7 @@ Check(t) ==
          /\ (t.op = "delete_media" => Report("C17_DeleteRemovesExactlyOwned", C17_DeleteMediaExact(a, b, t.pk), t.op))
          /\ (t.op = "delete_key" => Report("C17_DeleteRemovesExactlyOwned", C17_DeleteKeyExact(a, b, t.pk), t.op))
          /\ (t.op = "delete_mps" => Report("C17_DeleteRemovesExactlyOwned", C17_DeleteMpsExact(a, b, t.pk), t.op))
-         /\ (t.op \in {"upload", "add_stream"} =>
+         /\ (t.op \in {"upload", "upload_raw", "add_stream"} =>
                 Report("C17_DeleteRemovesExactlyOwned", C17_UploadTouchesOnlyItsStream(a, b, t.pk), t.op))
 TraceInit == l = 1
 TraceNext == l <= Len(TraceLog) /\ Check(TraceLog[l]) /\ l' = l + 1
